@@ -1,5 +1,6 @@
 """C03 — Datatype descriptions, copies and compatibility verdicts are faithful."""
 import json
+import math
 import os
 import sys
 
@@ -19,7 +20,12 @@ META = {
                   'any depth, on either side): compatibleC_as_described (the verdict is the one of the kinds they are described as), '
                   'compatibleC_complete, compatibleC_sound_partial, compatible_with_own_description (a datatype and the type rebuilt from its '
                   'description are compatible both ways), copyC_equiv (the copy validates like the original, LimitsType order test included), '
-                  'rebuildC_equiv_partial.  Commands: compatibleCmd_reduces / compatibleCmd_complete.  Users of compatible(): '
+                  'rebuildC_equiv_partial.  Scaled limits: scaled_description_exact / _only_if (the integers exported as min / max denote the '
+                  'limits exactly when the limits are grid aligned, wherever the float quotient limit/scale lands), rebuild_snaps / copy_snaps '
+                  '(for EVERY well-formed tree the description is a fixed point of the round trip and the rebuilt type / the copy is the tree '
+                  'with every scaled limit moved to its grid value; hypothesis GridStable), snapLimits_aligned.  '
+                  'Commands: compatibleCmd_reduces / compatibleCmd_complete, command_rebuild_equiv (export_datatype / '
+                  "DATATYPES['command'] / copy of a CommandType).  Users of compatible(): "
                   'proxy_own_description_silent, proxy_own_command_silent (the proxy check logs nothing against the own description), '
                   'writable_same_datatype_ok.  Table facts of DATATYPES / exported properties by decide.  Models '
                   'tied to frappy/datatypes.py, frappy/proxy.py (_check_descriptive_data) and frappy/modules.py (Writable.__init__) by a '
@@ -42,6 +48,9 @@ META = {
         '(FrappyProofs/Lemmas/CompatLawsRat.lean)',
         'CompatLaws.grid_ge_lt / grid_le_lt (a number whose grid value is >= m lies above m - scale, dually) are false for binary64 when '
         'scale < ulp(limit); assumed for the limits drawn (|grid index| <= 2^31)',
+        'GridStable (hypothesis of rebuild_snaps / copy_snaps: round((k*scale)/scale) = k) for binary64 within |k| < 2^51; proved for Rat '
+        '(rat_gridStable).  CompatLaws and GridStable are re-tested with the Float instance on 4 000 / 60 000 tuples of the region drawn in '
+        'every run (driver verb laws; a test, not a proof)',
         'FrappyDrive/FloatInst.lean: Float instance of FloatOps',
     ],
     'modelled_not_verified': [
@@ -57,12 +66,17 @@ META = {
         'the warnings); the remote datatypes are rebuilt from their description by the real get_datatype',
     ],
     'assumptions': ['generalConfig.lazy_number_validation is False (default)',
-                    'scaled integers have grid-aligned limits (quantifier of the property)',
+                    'scaled integers have grid-aligned limits in the strict sense limit == index * scale as floats (quantifier of the '
+                    'property; the Lean monitor judgeRebuilt tests it with exportableB); a limit written as a decimal literal that is not '
+                    'such a product (0.7 with scale 0.1: 7 * 0.1 = 0.7000000000000001) is outside: the round trip moves it by one ulp '
+                    '(remark in ScaledInteger.checkProperties) — for such trees only the description is judged and model == code is compared',
                     'relative_resolution < 1 on the second type of a pair (hypothesis ResLeOne of compatible_sound_partial; recorded finding otherwise)',
                     'datainfo given to get_datatype: enum values are JSON integers, scale is a JSON number, optional is a list',
                     'the member of a LimitsType is a number kind (FloatRange, IntRange, ScaledInteger); TextType as constructed '
                     '(minchars 0, not UTF-8)',
-                    'CommandType: argument and result are datatypes of the modelled kinds or None; copy / rebuild of a CommandType itself are not modelled'],
+                    'CommandType: argument and result are datatypes of the modelled kinds or None (derived classes in the compatible() '
+                    'stream, the ten kinds in the rebuild / copy stream); a command as the argument of a command and the old syntax '
+                    "['command', {...}] are not modelled"],
 }
 
 FMAX = sys.float_info.max
@@ -118,19 +132,91 @@ def run_probe(dt, probe):
 # ---------------------------------------------------------------------------------------------
 # generators
 # ---------------------------------------------------------------------------------------------
+C03_SCALES = gen.SCALES + [0.5, 2.0, 0.2, 0.01, 0.3, 0.7, 0.05, 1e-6, 1 / 3, 3.3, 1e3]
+
+
+def quotient_class(k, scale):
+    """where the float quotient `(k*scale)/scale` lands relative to the grid index k it stands for (what
+    `int(round(limit / scale))` of export_datatype / export_value / __call__ has to undo): exact / below / above;
+    None when k*scale is not a grid point in the strict sense (round(quotient) * scale gives another float)"""
+    try:
+        x = k * scale
+        q = x / scale
+        if math.isinf(x) or int(round(q)) != k or float(int(round(q)) * scale) != x:
+            return None
+    except (OverflowError, ValueError):
+        return None
+    return 'exact' if q == k else 'below' if q < k else 'above'
+
+
+def draw_index(rng, scale, want=None):
+    """a grid index; with `want` one whose quotient class is `want` (searched from random starting points: which indices have an
+    inexact quotient depends on the bits of the scale)"""
+    for _ in range(400):
+        k = rng.choice([rng.randint(-20, 20), rng.randint(-300, 300), rng.randint(-5000, 5000), rng.randint(-2 ** 31, 2 ** 31)])
+        c = quotient_class(k, scale)
+        if c is not None and (want is None or c == want):
+            return k
+    return None
+
+
 def aligned_scaled(rng):
-    scale = rng.choice(gen.SCALES + [0.5, 2.0])
+    """a scaled leaf with grid-aligned limits (limit == index * scale as floats).  The indices come from a small catalogue (zero,
+    degenerate, huge) or from a search that covers, for both limits, the three ways the float quotient limit/scale can relate to
+    the index: exact, a hair below, a hair above (decimal scales like 0.1 give all three)"""
+    scale = rng.choice(C03_SCALES)
     r = rng.random()
-    if r < 0.2:
-        klo, khi = -16777216, 16777216
-    elif r < 0.3:
-        klo = khi = rng.choice([0, 1, -3, 10, 2 ** 24])
-    else:
-        klo, khi = sorted(rng.sample([0, 1, -1, 5, -5, 10, 100, -100, 1000, 2 ** 24, -2 ** 24, 2 ** 31, -2 ** 31, 3, 7], 2))
+    ks = None
+    if r < 0.12:
+        ks = (-16777216, 16777216)
+    elif r < 0.2:
+        k = rng.choice([0, 1, -3, 10, 2 ** 24])
+        ks = (k, k)
+    elif r < 0.45:
+        ks = tuple(sorted(rng.sample([0, 1, -1, 5, -5, 10, 100, -100, 1000, 2 ** 24, -2 ** 24, 2 ** 31, -2 ** 31, 3, 7], 2)))
+    elif r < 0.8:
+        # at least one limit with an inexact quotient (when the scale has such indices at all)
+        k1 = draw_index(rng, scale, rng.choice(['below', 'below', 'above']))
+        k2 = draw_index(rng, scale, rng.choice([None, None, 'below', 'above', 'exact']))
+        if k1 is not None and k2 is not None:
+            ks = tuple(sorted((k1, k2))) if rng.random() < 0.85 else (k1, k1)
+    if ks is None or quotient_class(ks[0], scale) is None or quotient_class(ks[1], scale) is None:
+        k1, k2 = draw_index(rng, scale), draw_index(rng, scale)
+        ks = tuple(sorted((k1 or 0, k2 or 0)))
+    klo, khi = ks
     lo, hi = klo * scale, khi * scale
     ar = rng.choice([scale, scale, 0.0, 0.5, 0.03])
     rr = rng.choice([1.2e-7, 1.2e-7, 0.0, 0.01])
     return {'t': 'scaled', 'scale': fj(scale), 'min': fj(lo), 'max': fj(hi), 'ar': fj(ar), 'rr': fj(rr)}
+
+
+def scaled_leaves(tree):
+    t = tree['t']
+    if t == 'scaled':
+        yield tree
+    elif t == 'array':
+        yield from scaled_leaves(tree['elem'])
+    elif t == 'tuple':
+        for e in tree['elems']:
+            yield from scaled_leaves(e)
+    elif t == 'struct':
+        for _, m in tree['members']:
+            yield from scaled_leaves(m)
+
+
+def quotient_classes(tree):
+    """evidence: quotient classes of the limits of the scaled leaves of a tree"""
+    out = []
+    for lt in scaled_leaves(tree):
+        s = _f(lt['scale'])
+        for lim in ('min', 'max'):
+            x = _f(lt[lim])
+            try:
+                k = int(round(x / s))
+                out.append(quotient_class(k, s) if k * s == x else 'not-aligned')
+            except (OverflowError, ValueError):
+                out.append('overflow')
+    return out
 
 
 def fix_scaled(rng, tree):
@@ -144,6 +230,35 @@ def fix_scaled(rng, tree):
         return dict(tree, elems=[fix_scaled(rng, e) for e in tree['elems']])
     if t == 'struct':
         return dict(tree, members=[[k, fix_scaled(rng, m)] for k, m in tree['members']])
+    return tree
+
+
+def unalign_scaled(rng, tree):
+    """move limits of scaled leaves off the grid (outside the quantifier: only the description is judged there, and the model
+    of export / get_datatype / copy is compared with the real code): a fraction of a step, one ulp, a decimal literal"""
+    t = tree['t']
+    if t == 'scaled':
+        s, lo, hi = _f(tree['scale']), _f(tree['min']), _f(tree['max'])
+
+        def off(x):
+            r = rng.random()
+            if r < 0.25:
+                return x
+            if r < 0.6:
+                return x + rng.choice([0.1, -0.1, 0.3, -0.3, 0.49, -0.49, 0.5, -0.5]) * s
+            if r < 0.8:
+                return math.nextafter(x, rng.choice([math.inf, -math.inf]))
+            return float('%.6g' % x)
+        lo2, hi2 = off(lo), off(hi)
+        if not lo2 <= hi2:
+            lo2, hi2 = lo, off(hi) if off(hi) >= lo else hi
+        return dict(tree, min=fj(lo2), max=fj(hi2))
+    if t == 'array':
+        return dict(tree, elem=unalign_scaled(rng, tree['elem']))
+    if t == 'tuple':
+        return dict(tree, elems=[unalign_scaled(rng, e) for e in tree['elems']])
+    if t == 'struct':
+        return dict(tree, members=[[k, unalign_scaled(rng, m)] for k, m in tree['members']])
     return tree
 
 
@@ -164,13 +279,62 @@ def permute_optional(rng, tree):
 
 
 def gen_di(rng, maxdepth, kind=None):
-    tree = permute_optional(rng, fix_scaled(rng, gen.gen_tree(rng, maxdepth, kind)))
+    tree = fix_scaled(rng, gen.gen_tree(rng, maxdepth, kind))
+    if rng.random() < 0.12:
+        tree = unalign_scaled(rng, tree)
+    tree = permute_optional(rng, tree)
     if tree['t'] == 'string' and rng.random() < 0.3:
         tree = dict(tree, min=rng.choice([1, 3, 5]), max=gen.UNLIMITED)
     if rng.random() < 0.25:
         # derived classes (TextType, LimitsType, StatusType) at any depth
         tree = plant_variants(rng, tree, 0.5)
     return dicodec.annotate(rng, tree, UNITS, FMTS)
+
+
+def limit_values(lt, wire):
+    """the described limits of a numeric leaf themselves and their neighbours on the grid / around the clamping band: what a
+    description that moved a limit by one step (or by one ulp) answers differently"""
+    t = lt['t']
+    if t == 'int':
+        lo, hi = lt['min'], lt['max']
+        return [lo, hi, lo - 1, hi + 1]
+    lo, hi = _f(lt['min']), _f(lt['max'])
+    if t == 'double':
+        return [lo, hi] if not wire or (abs(lo) < 1e300 and abs(hi) < 1e300) else []
+    s = _f(lt['scale'])
+    if wire:
+        kb = gen.grid_bounds(lt)
+        if kb is None:
+            return []
+        klo, khi = kb
+        return [klo, khi, klo + 1, khi - 1, klo - 1, khi + 1]
+    out = [lo, hi, lo + s, hi - s, lo - 0.4 * s, hi + 0.4 * s, lo - 0.6 * s, hi + 0.6 * s]
+    for x in (lo - s, hi + s):
+        out += [x, math.nextafter(x, math.inf), math.nextafter(x, -math.inf)]
+    return [x for x in out if not math.isinf(x)]
+
+
+def limit_probes(rng, plain, cap=36):
+    """probes at the limits of the numeric leaves (every run, not sampled): a valid value with one numeric leaf replaced"""
+    out, seen = [], set()
+    for attempt in range(3):
+        v = gen.gen_valid(rng, plain)
+        if v is None:
+            break
+        for wire in (False, True):
+            cand0 = gen.to_wire(rng, plain, v) if wire else gen.to_driver(rng, plain, v)
+            for path, lt in list(gen.numeric_leaf_paths(plain, cand0))[:4]:
+                if (path, wire) in seen:
+                    continue
+                seen.add((path, wire))
+                for x in limit_values(lt, wire):
+                    cand = gen.subst(cand0, path, x)
+                    if (wire and not dtcodec.is_json_value(cand)) or not dtcodec.encodable(cand):
+                        continue
+                    out.append({'mode': 'wire' if wire else 'py', 'cand': dtcodec.py_to_json(cand), 'prev': None})
+        if len(out) >= cap:
+            break
+    return out[:cap]
 
 
 def gen_probes(rng, plain, n):
@@ -209,6 +373,7 @@ def gen_probes(rng, plain, n):
                 prev = None
         out.append({'mode': mode, 'cand': dtcodec.py_to_json(cand),
                     'prev': dtcodec.py_to_json(prev) if prev is not None else None})
+    out += limit_probes(rng, plain)
     # string lengths around the limits (the rebuild table's defaults are about lengths)
     for path, sub in dicodec.subtrees(plain):
         if sub['t'] == 'string' and not path:
@@ -954,13 +1119,20 @@ def eval_proxy(case):
     from types import SimpleNamespace
     from frappy.datatypes import get_datatype
     from frappy.proxy import ProxyModule
-    params, remote, built = {}, {}, []
+    params, remote, built, undescribed = {}, {}, [], []
     for p in case['params']:
         dt = dicodec.di_to_dt(p['dt'])
         params[p['name']] = SimpleNamespace(export=p['export'], readonly=p['readonly'], datatype=dt)
         bp = dict(p, dt=dicodec.erase(dicodec.dt_to_di(dt)))
         if p['remote'] is not None:
-            rdt = get_datatype(jround(dicodec.di_to_dt(p['remote']['dt']).export_datatype()), p['name'])
+            try:
+                rdt = get_datatype(jround(dicodec.di_to_dt(p['remote']['dt']).export_datatype()), p['name'])
+            except Exception as e:
+                # a description the real get_datatype refuses: reported as a disagreement (the model has no such outcome)
+                undescribed.append(f"{p['name']}:{type(e).__name__}")
+                bp['remote'] = None
+                built.append(bp)
+                continue
             remote[p['name']] = {'datatype': rdt, 'readonly': p['remote']['readonly']}
             bp['remote'] = {'dt': dicodec.erase(dicodec.dt_to_di(rdt)), 'readonly': p['remote']['readonly']}
         built.append(bp)
@@ -969,7 +1141,13 @@ def eval_proxy(case):
         cmds[c['name']] = SimpleNamespace(datatype=cmd_dt(c['dt']))
         bc = dict(c, dt=norm_cmd(c['dt']))
         if c['remote'] is not None:
-            rdt = get_datatype(jround(cmd_dt(c['remote']).export_datatype()), c['name'])
+            try:
+                rdt = get_datatype(jround(cmd_dt(c['remote']).export_datatype()), c['name'])
+            except Exception as e:
+                undescribed.append(f"{c['name']}:{type(e).__name__}")
+                bc['remote'] = None
+                cbuilt.append(bc)
+                continue
             remotecmds[c['name']] = {'datatype': rdt}
             bc['remote'] = {'arg': dicodec.erase(dicodec.dt_to_di(rdt.argument)) if rdt.argument is not None else None,
                             'res': dicodec.erase(dicodec.dt_to_di(rdt.result)) if rdt.result is not None else None}
@@ -995,6 +1173,8 @@ def eval_proxy(case):
             'commands': [[c['name'], cout[c['name']]] for c in case.get('commands', [])]}
     if crashed:
         impl['crashed'] = crashed
+    if undescribed:
+        impl['remote-description-refused'] = undescribed
     return {'params': built, 'commands': cbuilt}, impl
 
 
@@ -1074,6 +1254,58 @@ def eval_cmd(case):
     return {'verdict': verdict, 'wa': through(b.argument, case['wa']), 'wr': through(a.result, case['wr'])}
 
 
+def gen_cmdrebuild(rng):
+    """a command whose argument / result are annotated trees of the ten kinds (or None), with probes for both"""
+    def opt():
+        if rng.random() < 0.25:
+            return None, []
+        tree0 = dicodec.strip_cls(gen_di(rng, rng.choice([1, 2, 2, 3])))
+        tree = dicodec.dt_to_di(dicodec.di_to_dt(tree0))
+        return tree, gen_probes(rng, dicodec.erase(tree), 4)
+    (a, pa), (r, pr) = opt(), opt()
+    return {'k': 'cmdrebuild', 'arg': a, 'res': r, 'argprobes': pa, 'resprobes': pr}
+
+
+def eval_cmdrebuild(case):
+    """CommandType.export_datatype -> json round trip -> get_datatype, and CommandType.copy(): datainfo again, argument / result
+    of the derived command (trees, probes through the original's and the derived one's), objects shared with the original"""
+    from frappy.datatypes import CommandType, get_datatype
+    a = dicodec.di_to_dt(case['arg']) if case['arg'] is not None else None
+    r = dicodec.di_to_dt(case['res']) if case['res'] is not None else None
+    cmd = CommandType(a, r)
+    ex = _outcome(cmd.export_datatype)
+    impl = {}
+    for name, build in (('rebuild', lambda: get_datatype(jround(ex[1]))), ('copy', cmd.copy)):
+        o = {'built': False, 'datainfo': datainfo_json(ex[1]) if ex[0] == 'ok' else None, 'datainfo2': None, 'arg2': None, 'res2': None,
+             'argp': None, 'resp': None, 'shared': [], 'error': None}
+        impl[name] = o
+        d = _outcome(build) if ex[0] == 'ok' else ('other', 'export:' + str(ex[1]))
+        if d[0] != 'ok' or not isinstance(d[1], CommandType):
+            o['error'] = d[1] if d[0] != 'ok' else 'not-a-command:' + type(d[1]).__name__
+            if d[0] == 'bad':
+                o['error'] = 'bad'
+            continue
+        c2 = d[1]
+        o['built'] = True
+        ex2 = _outcome(c2.export_datatype)
+        if ex2[0] == 'ok':
+            o['datainfo2'] = datainfo_json(ex2[1])
+        for key, orig, der, probes in (('arg', a, c2.argument, case['argprobes']), ('res', r, c2.result, case['resprobes'])):
+            if der is None:
+                continue
+            try:
+                o[key + '2'] = dicodec.dt_to_di(der)
+            except Exception as e:
+                o[key + '2'] = {'other': 'unreadable:' + type(e).__name__}
+            o[key + 'p'] = [{'o': run_probe(orig, p), 'd': run_probe(der, p)} for p in probes] if orig is not None else []
+            if orig is not None:
+                wa, wb = walk(orig), walk(der)
+                o['shared'] += sorted(wa[i] for i in wa if i in wb)
+        if c2 is cmd:
+            o['shared'].append('datatype:CommandType')
+    return impl
+
+
 def show_cmd(c):
     return 'CommandType(%s, %s)' % (show(c['arg']) if c['arg'] is not None else None, show(c['res']) if c['res'] is not None else None)
 
@@ -1105,6 +1337,85 @@ def sub_pairs(case):
 
 
 # ---------------------------------------------------------------------------------------------
+def law_test(ctx, res):
+    """evaluates every law of CompatLaws and the hypothesis GridStable with the Float instance of the driver on tuples from the
+    region the generators draw (scales of C03_SCALES, grid indices up to 2^31, limits on and off the grid, values around the
+    limits and the clamping / tolerance bands) — a test of the trusted base, not a proof"""
+    rng = ctx.rng
+    f2b = dtcodec.f2bits
+    n = ctx.budget(4000, 60000)
+    tuples = []
+    cat = gen.FLOAT_CAT + [-0.0, 5e-324, -5e-324, 2.2250738585072014e-308, 16777216.0, 1e-7]
+    for _ in range(n):
+        r = rng.random()
+        rr = rng.choice([1.2e-7, 1.2e-7, 0.0, 0.01, 0.5])
+        ar = rng.choice([0.0, 0.0, 0.5, 1e-3, 1.0, 5e-324, 0.03])
+        if r < 0.55:
+            # the grid: a limit m on (or near) the grid of s, values around the limit and the clamping band
+            sc = rng.choice(C03_SCALES) if rng.random() < 0.8 else math.ldexp(rng.random() + 0.5, rng.randint(-20, 20))
+            k = draw_index(rng, sc, rng.choice([None, None, 'below', 'above'])) or 0
+            m = k * sc
+            if rng.random() < 0.25:
+                m += rng.choice([0.1, -0.3, 0.49, 0.5, -0.5]) * sc
+            x = m + rng.choice([0.0, 0.25, -0.25, 0.5, -0.5, 0.75, -0.75, 1.0, -1.0, 1.5, -1.5, 2.0, -2.0]) * sc
+            if rng.random() < 0.5:
+                x = math.nextafter(x, rng.choice([math.inf, -math.inf]))
+            y = x + rng.choice([0.0, 0.5, 1.0, 3.0]) * sc if rng.random() < 0.7 else rng.choice(cat)
+            s_ = sc
+        else:
+            # the tolerance band of a double: values around a limit by fractions / multiples of the tolerance
+            m = rng.choice(cat)
+            s_ = rng.choice(C03_SCALES)
+            base = m if rng.random() < 0.7 else rng.choice(cat)
+            prec = max(abs(base * rr), ar)
+            x = base + rng.choice([0.0, -0.5, -1.0, -1.0000001, -2.0, 0.5, 1.0, 1.0000001, 2.0]) * prec
+            if rng.random() < 0.4 and not math.isinf(x):
+                x = math.nextafter(x, rng.choice([math.inf, -math.inf]))
+            y = rng.choice([x, base, m, x + prec, x + 2 * prec, rng.choice(cat)])
+            # the grid laws are assumed for |grid index| <= 2^31 only (false where the scale is below the float spacing)
+            big = max([abs(v) for v in (m, x, y) if not math.isinf(v)] + [0.0])
+            s_ = max(s_, math.ldexp(big, -30)) if big > 0 else s_
+        if not x <= y:
+            x, y = y, x
+        lo, i, hi = sorted(rng.choice(gen.INT_CAT + [2 ** 70, -2 ** 70, 2 ** 64 + 1]) for _ in range(3))
+        if any(isinstance(v, float) and math.isnan(v) for v in (m, x, y)):
+            continue
+        tuples.append([f2b(float(m)), f2b(float(s_)), f2b(float(x)), f2b(float(y)), f2b(rr), f2b(ar), lo, i, hi])
+    ans = ctx.driver.batch([{'p': 'C03', 'k': 'laws', 'tuples': tuples[i:i + 2000]} for i in range(0, len(tuples), 2000)])
+    fails, k = {}, 0
+    for a in ans:
+        if 'driver_error' in a:
+            raise RuntimeError(f'driver error {a}')
+        for names in a['fail']:
+            for name in names:
+                fails.setdefault(name, tuples[k])
+            k += 1
+    res.count('float-law re-test (a test): tuples', len(tuples))
+    res.count('float-law re-test (a test): laws violated', len(fails))
+    res.notes.append(f'float-law re-test (a test, not a proof): the laws of CompatLaws and the hypothesis GridStable evaluated with the '
+                     f'Float instance on {len(tuples)} tuples from the region the generators draw (scales {len(C03_SCALES)} + random, '
+                     f'grid indices up to 2^31, limits on / off the grid, values around limits and bands): {len(fails)} laws violated')
+    for name, t in fails.items():
+        res.disagreements.append({'case': {'k': 'law', 'law': name, 'tuple': t}, 'model': 'law / hypothesis assumed for binary64',
+                                  'impl': 'fails on this tuple (bit patterns m, s, x, y, rr, ar; integers lo, i, hi)'})
+
+
+def malformed_commands():
+    """descriptions of commands around the `command` entry of DATATYPES: absent / null / malformed argument and result, unknown
+    keys (must-ignore), the colliding key pname.  (A command as the argument of a command is accepted by the real table and not
+    modelled: `CmdInfo` holds value types.)"""
+    i, b, bad = {'type': 'int', 'min': 0, 'max': 5}, {'type': 'bool'}, {'type': 'int', 'min': 0}
+    out = [{'type': 'command'}, {'type': 'command', 'argument': None}, {'type': 'command', 'argument': None, 'result': None},
+           {'type': 'command', 'argument': i}, {'type': 'command', 'result': b}, {'type': 'command', 'argument': i, 'result': b},
+           {'type': 'command', 'argument': bad}, {'type': 'command', 'result': bad}, {'type': 'command', 'argument': 5},
+           {'type': 'command', 'argument': 'int'}, {'type': 'command', 'argument': [], 'result': b},
+           {'type': 'command', 'argument': ['int', {'min': 0, 'max': 5}]}, {'type': 'command', 'result': ['bool', {}]},
+           {'type': 'command', 'argument': i, 'description': 'x', '_custom': 1}, {'type': 'command', 'pname': 'x'},
+           {'type': 'command', 'members': i},
+           {'type': 'command', 'argument': {'type': 'struct', 'members': {'a': i, 'b': b}, 'optional': ['b']}, 'result': {'type': 'tuple', 'members': [i, b]}}]
+    return out
+
+
 def load_corpus(ctx):
     cases = []
     cdir = os.path.join(ctx.verif, 'corpus', 'C03')
@@ -1136,6 +1447,20 @@ def req_of(case):
     if k == 'cmdcompat':
         impl = eval_cmd(case)
         return {'p': 'C03', 'k': 'cmdcompat', 'a': case['a'], 'b': case['b'], 'impl': impl}, impl
+    if k == 'cmdrebuild':
+        impl = eval_cmdrebuild(case)
+        return {'p': 'C03', 'k': 'cmdrebuild', 'arg': case['arg'], 'res': case['res'], 'impl': impl}, impl
+    if k == 'getcmd':
+        from frappy.datatypes import CommandType, get_datatype
+        out = _outcome(lambda: get_datatype(jround(case['datainfo'])))
+        if out[0] == 'ok' and isinstance(out[1], CommandType):
+            try:
+                impl = {key: dicodec.dt_to_di(x) if x is not None else None for key, x in (('arg', out[1].argument), ('res', out[1].result))}
+            except Exception as e:
+                impl = {'other': 'unreadable:' + type(e).__name__}
+        else:
+            impl = 'bad' if out[0] == 'bad' else {'other': out[1] if out[0] != 'ok' else 'not-a-command'}
+        return {'p': 'C03', 'k': 'getcmd', 'json': dtcodec.py_to_json(case['datainfo'])}, impl
     if k == 'writable':
         impl = eval_writable(case)
         return {'p': 'C03', 'k': 'writable', 'value': case['value'], 'target': case['target']}, impl
@@ -1193,6 +1518,19 @@ def disagreement(case, impl, ans):
         if not tree_eq(m, impl):
             return {'get': (m, impl)}
         return None
+    if k == 'cmdrebuild':
+        diffs = {}
+        for name in ('rebuild', 'copy'):
+            o = impl[name]
+            if name == 'rebuild' and canon_model_json(m['datainfo']) != o['datainfo']:
+                diffs['datainfo'] = (m['datainfo'], o['datainfo'])
+            mt = m[name]
+            it = {'arg': o['arg2'], 'res': o['res2']} if o['built'] else ('bad' if o['error'] == 'bad' else {'other': str(o['error'])})
+            if not tree_eq(mt, it):
+                diffs[name] = (mt, it)
+        return diffs or None
+    if k == 'getcmd':
+        return None if tree_eq(m, impl) else {'getcmd': (m, impl)}
     if k in ('proxy', 'writable'):
         if m != impl:
             return {k: (m, impl)}
@@ -1252,6 +1590,8 @@ def unlimit(a, b):
 
 
 def signature(clause, case, impl=None):
+    if case['k'] == 'cmdrebuild':
+        return f'C03:command:{clause}'
     if case['k'] == 'cmdcompat':
         if clause == 'sound' and impl is not None:
             # attribution only: a refused argument / result that is one of the recorded findings of the pair it belongs to
@@ -1326,6 +1666,12 @@ def show(tree):
 
 
 def describe(case, impl):
+    if case['k'] == 'cmdrebuild':
+        which = 'copy' if impl['copy'] != impl['rebuild'] and (not impl['copy']['built'] or impl['copy']['shared']) else 'rebuild'
+        o = impl[which]
+        diff = [(json.dumps(p['o'])[:80], json.dumps(p['d'])[:80]) for p in (o['argp'] or []) + (o['resp'] or []) if p['o'] != p['d']][:2]
+        return (f"{show_cmd(case)}: datainfo {json.dumps(o['datainfo'])[:300]}; {which} -> "
+                f"{json.dumps(o['datainfo2'])[:300] if o['built'] else o['error']}; shared {o['shared']}; differing probes {diff}")
     if case['k'] == 'cmdcompat':
         bad = [repr(dtcodec.json_to_py(w['v'])) for w in impl['wa'] + impl['wr'] if not w['acc']][:3]
         return (f"{show_cmd(case['a'])}.compatible({show_cmd(case['b'])}) -> {json.dumps(impl['verdict'])}; arguments of the first "
@@ -1344,9 +1690,26 @@ def describe(case, impl):
             f"original changed by mutating the copy: {impl['before'] != impl['after']}; differing probes {diff}")
 
 
+def simpler_scaled(tree):
+    """a scaled leaf at the root with fewer non-default properties / one limit moved to zero"""
+    if tree['t'] != 'scaled':
+        return
+    s, lo, hi = _f(tree['scale']), _f(tree['min']), _f(tree['max'])
+    plain = dict(tree, unit='', fmt='%g', ar=tree['scale'], rr=fj(1.2e-7))
+    if plain != tree:
+        yield plain
+    if lo < 0.0 < hi or (lo == hi and lo != 0.0):
+        yield dict(tree, min=fj(0.0)) if lo < 0.0 else dict(tree, max=fj(0.0))
+        yield dict(tree, max=fj(0.0)) if hi > 0.0 else dict(tree, min=fj(0.0))
+    elif 0.0 < lo:
+        yield dict(tree, min=fj(0.0))
+    elif hi < 0.0:
+        yield dict(tree, max=fj(0.0))
+
+
 def shrink(ctx, case, clause):
     """descend into the tree / pair while a smaller case fails the same clause"""
-    if case['k'] == 'cmdcompat':
+    if case['k'] in ('cmdcompat', 'cmdrebuild'):
         return case
     for _ in range(8):
         smaller = None
@@ -1358,6 +1721,7 @@ def shrink(ctx, case, clause):
             for path, sub in dicodec.subtrees(case['tree']):
                 if len(path) == 1:
                     cands.append(dict(case, tree=sub, probes=[]))
+            cands += [dict(case, tree=t_, probes=[]) for t_ in simpler_scaled(case['tree'])]
         for sc in cands:
             try:
                 if sc['k'] == 'compat':
@@ -1385,11 +1749,12 @@ def shrink(ctx, case, clause):
 def run(ctx):
     res = Result()
     res.rule = ('datatype trees built by the constructors (units with $, format strings, enum names, optional members, client marks, '
-                'grid-aligned scaled limits): export_datatype -> json round trip -> get_datatype -> export_datatype, probes from the '
+                'grid-aligned scaled limits whose float quotient limit/scale is exact / a hair below / a hair above the grid index; 12 % with limits off the grid, '
+                'description only): export_datatype -> json round trip -> get_datatype -> export_datatype, probes at every numeric limit and from the '
                 'boundary catalogues through both types (import_value / validate(previous)); copy() with the id()-walk of all mutable '
                 'objects, then mutation of every object of the copy; datainfo with unknown / dropped / null / wrong-kind keys through '
                 'get_datatype; ordered pairs derived per kind (wider, equal, narrower, shifted, cross kind, random) through compatible() '
-                'with witnesses of the first value set through the real validate of the second; derived classes (TextType, LimitsType, StatusType) planted at any depth in all three streams plus a systematic catalogue of every derived class against its plain class; pairs of commands; the proxy consistency check and Writable.__init__ on related datatypes.  Non-trivial = a tree with a container '
+                'with witnesses of the first value set through the real validate of the second; derived classes (TextType, LimitsType, StatusType) planted at any depth in all three streams plus a systematic catalogue of every derived class against its plain class; pairs of commands; commands through export_datatype / get_datatype / copy; malformed command descriptions; re-test of the float laws; the proxy consistency check and Writable.__init__ on related datatypes.  Non-trivial = a tree with a container '
                 'or a non-default property; a pair whose verdict is pass, or which is refused below the root or by a limit')
     rng = ctx.rng
     big = ctx.tier == 'thorough' or ctx.escalated
@@ -1492,6 +1857,16 @@ def run(ctx):
             continue
         cases.append(({'k': 'writable', 'value': b, 'target': a, 'mode': mode}, 'writable'))
 
+    for i in range(ctx.budget(300, 5000)):
+        try:
+            cases.append((gen_cmdrebuild(rng), 'command-rebuild'))
+        except Exception as e:
+            res.count('tree.refused:' + type(e).__name__)
+    for d_ in malformed_commands():
+        cases.append(({'k': 'getcmd', 'datainfo': d_}, 'get:command'))
+    # re-test of the additional float laws on the region drawn (a test of the trusted base, not a proof)
+    law_test(ctx, res)
+
     CH = 20000
     shrunk = 0
     for start in range(0, len(cases), CH):
@@ -1532,6 +1907,10 @@ def run(ctx):
                 res.count(f'{k}.root=' + c['tree']['t'])
                 res.count(f'{k}.classes=' + ('+'.join(dicodec.classes(c['tree'])) or 'plain'))
                 res.count(f'{k}.built=' + str(impl['built']).lower())
+                for qc in quotient_classes(c['tree']):
+                    res.count('scaled.limit/scale=' + str(qc))
+                if any(True for _ in scaled_leaves(c['tree'])):
+                    res.count(f'{k}.scaled-limits=' + ('grid-aligned' if ans.get('aligned') else 'not-aligned(description only)'))
                 for p in impl['probes']:
                     res.count('probe.original=' + ('ok' if isinstance(p['o'], dict) and 'ok' in p['o'] else 'bad' if p['o'] == 'bad' else 'other'))
                 if c['tree']['t'] in gen.CONTAINER_KINDS or json.dumps(impl['datainfo']).count('[') > 3:
@@ -1552,6 +1931,14 @@ def run(ctx):
                           ''.join('R' if x['res'] is not None else '-' for x in (c['a'], c['b'])))
                 res.count('command.nested=' + str(ans['nested']).lower() + ',verdict=' + v)
                 res.nontriv(c)
+            elif k == 'cmdrebuild':
+                res.traces += 1
+                res.count('command-rebuild.shape=' + ('A' if c['arg'] is not None else '-') + ('R' if c['res'] is not None else '-'))
+                res.count('command-rebuild.built=' + str(impl['rebuild']['built']).lower() + ',copy=' + str(impl['copy']['built']).lower())
+                res.count('command-rebuild.limits=' + ('grid-aligned' if ans.get('aligned') else 'not-aligned(description only)'))
+                res.nontriv(c)
+            elif k == 'getcmd':
+                res.count('get.command=' + ('command' if isinstance(impl, dict) and 'arg' in impl else 'bad' if impl == 'bad' else 'other'))
             elif k == 'writable':
                 res.count('writable=' + (impl if isinstance(impl, str) else 'other'))
                 res.nontriv(c)
@@ -1562,7 +1949,7 @@ def run(ctx):
             if ctx.model_ok:
                 d = disagreement(c, impl, ans)
                 if d:
-                    res.disagreements.append({'case': {kk: vv for kk, vv in c.items() if kk not in ('probes', 'witnesses')},
+                    res.disagreements.append({'case': {kk: vv for kk, vv in c.items() if kk not in ('probes', 'witnesses', 'argprobes', 'resprobes')},
                                               'model': {kk: vv[0] for kk, vv in d.items()},
                                               'impl': {kk: vv[1] for kk, vv in d.items()}})
             for clause in ans.get('judge', []):
@@ -1578,10 +1965,15 @@ def run(ctx):
 
 def replay(ctx, rp):
     case = rp['case']
+    if case.get('k') == 'law':
+        ans = ctx.driver.batch([{'p': 'C03', 'k': 'laws', 'tuples': [case['tuple']]}])[0]
+        print('law      :', case['law'], 'on (m, s, x, y, rr, ar) =', [bits2f(b) for b in case['tuple'][:6]], 'integers', case['tuple'][6:])
+        print('fails    :', ans['fail'][0])
+        return 1 if case['law'] in ans['fail'][0] else 0
     req, impl = req_of(case)
     ans = ctx.driver.batch([req])[0]
-    print('case     :', json.dumps({k: v for k, v in case.items() if k not in ('probes', 'witnesses')})[:1500])
-    if case['k'] in ('rebuild', 'copy', 'compat', 'cmdcompat'):
+    print('case     :', json.dumps({k: v for k, v in case.items() if k not in ('probes', 'witnesses', 'argprobes', 'resprobes')})[:1500])
+    if case['k'] in ('rebuild', 'copy', 'compat', 'cmdcompat', 'cmdrebuild'):
         print('what     :', describe(case, impl))
     print('impl     :', json.dumps(impl)[:2000])
     print('model    :', json.dumps(ans.get('model'))[:2000])
